@@ -666,7 +666,13 @@ func (r *resolver) delayRecursiveUses(parent HasDataDefinitions, u *Uses, resolv
 // now resolved list of definitions.  There's a chance the resolved list might also have
 // placeholders so loop until all placeholders are replaced.
 func (r *resolver) fillInRecursiveDefs(root *Module) error {
+	passes := 0
 	for len(r.unresolvedUses) > 0 {
+		// every pass replaces the placeholders of the one before; a grouping that uses itself at its own
+		// level (not below a node of its own) hands back a placeholder each time and would never finish
+		if passes++; passes > 1000 {
+			return fmt.Errorf("%s - uses of a grouping that uses itself without a node in between can never be resolved", SchemaPathNoModule(r.unresolvedUses[0].uses))
+		}
 		if r.trace {
 			fc.Debug.Printf("DEQUE %d items", len(r.unresolvedUses))
 		}
